@@ -251,6 +251,33 @@ def compare_run(impl, model):
     return ii == mi_ and compare(io, mo)
 
 
+KINDS = "bcyi"
+
+
+def gen_run(rng):
+    """<sample_count> <sample_size|t> <threads> <opt/pre/inp/- kinds> <alloc> <seed>"""
+    def subset(p):
+        return "".join(k for k in KINDS if rng.random() < p) or "-"
+    k = rng.random()
+    if k < 0.45:      # a constant counter (options or Bencher::counter) and an input counter of the SAME kind
+        kind = rng.choice(KINDS)
+        other = rng.choice(KINDS)
+        where = rng.random()
+        opt = kind if where < 0.5 else "-"
+        pre = kind if where >= 0.35 else "-"
+        inp = kind
+        if rng.random() < 0.4 and other != kind:      # two kinds mixed
+            inp = "".join(sorted({kind, other}, key=KINDS.index))
+            if rng.random() < 0.5:
+                opt = "".join(sorted(set(opt.replace("-", "")) | {other}, key=KINDS.index)) or "-"
+        spec = f"{opt}/{pre}/{inp}/-"
+    else:
+        spec = f"{subset(0.25)}/{subset(0.25)}/{subset(0.3)}/-"
+    size = "t" if rng.random() < 0.2 else str(rng.choice([0, 1, 1, 2, 3, 8]))
+    count = rng.choice([0, 1, 2, 3, 4, 5, 8, 20]) if size != "t" else rng.choice([1, 2, 3, 5])
+    return f"{count} {size} {rng.choice([1, 1, 2, 3])} {spec} {rng.randrange(2)} {rng.randrange(1000)}"
+
+
 # --------------------------------------------------------------------------
 # streams
 # --------------------------------------------------------------------------
@@ -299,10 +326,14 @@ def streams(tier, rng):
         per.append(f"{s} " + ",".join(str(rng.choice([rng.randrange(100), rng.getrandbits(64), U64, 0, rng.getrandbits(32)]))
                                       for _ in range(s)))
 
-    runs = ["0 2 1 0 0 1", "2 0 1 2 1 3", "1 1 1 0 0 1", "3 2 1 2 1 7", "4 1 2 3 1 5", "5 3 1 1 0 9", "2 1 3 3 1 4"]
-    while len(runs) < (120 if quick else 2500):
-        runs.append(f"{rng.choice([0, 1, 2, 3, 4, 5, 8, 20])} {rng.choice([0, 1, 1, 2, 3, 8])} {rng.choice([1, 1, 2, 3])} "
-                    f"{rng.randrange(4)} {rng.randrange(2)} {rng.randrange(1000)}")
+    runs = corpus_cases("C05-run")
+    for kind in KINDS:     # constant of kind K (options / Bencher::counter) overridden by input_counter(K), explicit and tuned size
+        runs += [f"3 2 1 {kind}/-/{kind}/- 0 7", f"3 2 1 -/{kind}/{kind}/- 0 7", f"4 1 2 {kind}/{kind}/{kind}/- 1 5",
+                 f"2 t 1 {kind}/-/{kind}/- 0 3"]
+    runs += ["0 2 1 -/-/-/- 0 1", "2 0 1 -/-/b/- 1 3", "1 1 1 -/-/-/- 0 1", "3 2 1 -/-/b/- 1 7", "4 1 2 -/c/i/- 1 5",
+             "5 3 1 -/i/-/- 0 9", "2 1 3 bc/y/bi/- 1 4", "0 2 1 i/-/i/- 0 1", "3 3 1 bi/ci/bci/- 1 11"]
+    while len(runs) < (160 if quick else 3000):
+        runs.append(gen_run(rng))
 
     def nt(c, m):
         return m.startswith("ok ") and c.split(" ")[1].count(",") >= 1
@@ -320,11 +351,14 @@ def streams(tier, rng):
                release=True),
         Stream("per-input-counter-stored", "periter", per, nontrivial=lambda c, m: "," in c),
         Stream("real-runs-debug", "run", runs, compare=compare_run, model_input=mi,
-               nontrivial=lambda c, m: m.startswith("IN ") and m.split(" ")[2].count(",") >= 1,
-               describe="real Bencher runs (sample_count, sample_size, threads 1..3, constant / per-input counters, allocating "
-                        "or not, AllocProfiler installed): compute_stats on what the run recorded; model driven by the recording"),
+               nontrivial=lambda c, m: m.startswith("IN ") and len(m.split(" ")) > 2 and m.split(" ")[2].count(",") >= 1,
+               describe="real Bencher runs (sample_count, explicit or tuned sample_size, threads 1..3, constant counters from the "
+                        "options and from Bencher::counter combined with input_counter of the same and of other kinds, "
+                        "allocating or not, AllocProfiler installed): the stored per-input counts must be one per recorded "
+                        "sample with that sample's own value (the harness knows the inputs it generated), and compute_stats "
+                        "on what the run recorded; model driven by the recording"),
         Stream("real-runs-release", "run_rel", runs[: len(runs) // 2], compare=compare_run, model_input=mi, release=True,
-               nontrivial=lambda c, m: m.startswith("IN ") and m.split(" ")[2].count(",") >= 1),
+               nontrivial=lambda c, m: m.startswith("IN ") and len(m.split(" ")) > 2 and m.split(" ")[2].count(",") >= 1),
     ]
 
 
